@@ -178,6 +178,7 @@ class Collector:
         self.evals = 0
         self.skipped = 0
         self.nontrivial = set()
+        self.nt_evals = 0
         self.classes = {}
         self.samples = []
         self.failures = {}  # signature -> (size, case, detail)
@@ -207,6 +208,7 @@ class Collector:
         for c in info.get("classes", ()):
             self.classes[c] = self.classes.get(c, 0) + 1
         if info.get("nontrivial"):
+            self.nt_evals += 1
             key = info.get("key") or canon(case)
             self.nontrivial.add(case_hash(key))
             if len(self.samples) < 6:
@@ -420,6 +422,7 @@ def _run_shard(args):
             "evals": col.evals,
             "skipped": col.skipped,
             "nontrivial": col.nontrivial,
+            "nt_evals": col.nt_evals,
             "classes": col.classes,
             "samples": col.samples,
             "failures": col.failures,
@@ -553,16 +556,17 @@ def run_check(mod, tier="quick", seed=1, replay=None, only_part=None, replay_inn
     for p in parts:
         by_part.setdefault(
             p.name,
-            {"evals": 0, "skipped": 0, "nontrivial": set(), "classes": {}, "samples": [], "failures": {}, "excluded": {}},
+            {"evals": 0, "skipped": 0, "nontrivial": set(), "nt_evals": 0, "classes": {}, "samples": [], "failures": {}, "excluded": {}},
         )
     for r in results:
         a = by_part.setdefault(
             r["part"],
-            {"evals": 0, "skipped": 0, "nontrivial": set(), "classes": {}, "samples": [], "failures": {}, "excluded": {}},
+            {"evals": 0, "skipped": 0, "nontrivial": set(), "nt_evals": 0, "classes": {}, "samples": [], "failures": {}, "excluded": {}},
         )
         a["evals"] += r["evals"]
         a["skipped"] += r["skipped"]
         a["nontrivial"] |= r["nontrivial"]
+        a["nt_evals"] += r.get("nt_evals", 0)
         for k, v in r["classes"].items():
             a["classes"][k] = a["classes"].get(k, 0) + v
         if len(a["samples"]) < 4:
@@ -637,8 +641,10 @@ def run_check(mod, tier="quick", seed=1, replay=None, only_part=None, replay_inn
     for p in parts:
         a = by_part[p.name]
         eff = a["evals"] - a["skipped"]
-        if p.min_nontrivial and eff > 0 and len(a["nontrivial"]) < p.min_nontrivial * eff and not a["failures"] and not hangs:
-            vac.append(f"{p.name}: {len(a['nontrivial'])} distinct non-trivial of {eff}")
+        # the guard is on the fraction of non-trivial EVALUATIONS (the number of distinct ones
+        # saturates in small input spaces as the case count grows)
+        if p.min_nontrivial and eff > 0 and a["nt_evals"] < p.min_nontrivial * eff and not a["failures"] and not hangs:
+            vac.append(f"{p.name}: {a['nt_evals']} non-trivial evaluations ({len(a['nontrivial'])} distinct) of {eff}")
     write_evidence(mod, tier, seed, by_part, parts, nviol, known_lines, time.time() - t0)
     if vac and rc == 0:
         print("HARNESS-ERROR property=%s vacuity guard: %s" % (prop, "; ".join(vac)))
@@ -756,6 +762,7 @@ def write_evidence(mod, tier, seed, by_part, parts, nviol, known_lines, wall):
                 "evaluations": by_part[p.name]["evals"],
                 "outside_domain_skipped": by_part[p.name]["skipped"],
                 "distinct_nontrivial": len(by_part[p.name]["nontrivial"]),
+                "nontrivial_evaluations": by_part[p.name]["nt_evals"],
                 "classes": dict(sorted(by_part[p.name]["classes"].items())),
                 "excluded_known": by_part[p.name]["excluded"],
                 "exhaustive": bool(p.exhaustive is not None and p.strategy is None),
